@@ -73,4 +73,11 @@ theorem crossesLine_split_excl (ac vc bc c : Rat)
   rintro ⟨(⟨h3, h4⟩ | ⟨h3, h4⟩), (⟨h5, h6⟩ | ⟨h5, h6⟩)⟩ <;>
     rcases hmono with ⟨h1, h2⟩ | ⟨h1, h2⟩ <;> linarith
 
+/-- half-open rule: a leg crosses the line iff exactly one of its ends is "low" (≤ c) -/
+theorem crossesLine_eq_low_xor (ac bc c : Rat) :
+    crossesLine ac bc c = (decide (ac ≤ c) != decide (bc ≤ c)) := by
+  unfold crossesLine
+  by_cases h1 : ac ≤ c <;> by_cases h2 : bc ≤ c <;>
+    simp [h1, h2, not_le.mp, not_lt.mpr]
+
 end AdaptaVerif.Lemmas.Topo
